@@ -3,7 +3,7 @@ hdl21 ProtoBuf Import
 """
 from types import SimpleNamespace
 from dataclasses import fields
-from typing import Union, Any, Dict, List, Optional
+from typing import Union, Any, Dict, List, Optional, get_args
 
 # Local imports
 # Proto-definitions
@@ -167,6 +167,7 @@ class ProtoImporter:
                 target = import_vlsir_primitive(ref.external)
                 remapped_params = import_primitive_params(target, params)
                 remapped_params = import_scalar_literals(target, remapped_params)
+                remapped_params = import_unset_params(target, remapped_params)
                 params = target.Params(**remapped_params)
 
             elif ref.external.domain in (
@@ -176,6 +177,7 @@ class ProtoImporter:
                 # Retrieve the Primitive from `hdl21.primitives`, and convert its parameters
                 target = import_hdl21_primitive(ref.external)
                 params = import_scalar_literals(target, params)
+                params = import_unset_params(target, params)
                 params = target.Params(**params)
 
             else:  # Externally-defined `ExternalModule`
@@ -401,6 +403,17 @@ def import_scalar_literals(target: Primitive, params: Dict[str, Any]) -> Dict[st
         key: Literal(text=val) if key in names and isinstance(val, str) else val
         for key, val in params.items()
     }
+
+
+def import_unset_params(target: Primitive, params: Dict[str, Any]) -> Dict[str, Any]:
+    """Give the un-set parameters of a primitive the value `None`, where they can have it.
+    The exporter leaves `None`-valued parameters un-set; their defaults are not always `None`."""
+    unset = {
+        field.name: None
+        for field in fields(target.Params)
+        if field.name not in params and type(None) in get_args(field.type)
+    }
+    return {**params, **unset}
 
 
 def import_primitive_params(
